@@ -58,6 +58,10 @@ def gen_shape(r, small=False):
     if r.random() < 0.15:
         vs = r.sample(range(n), r.randint(1, n))
         cons.append({"terms": [(1, v) for v in vs], "sense": "le", "rhs": Fraction(r.randint(0, len(vs)))})
+    if r.random() < 0.08:
+        # a side constraint over NO variable (a Python sum over an empty selection compared with a constant, as
+        # `sum(...) >= count` in solve_major_model when no candidate allele has a configuration): constant true or false
+        cons.append({"terms": [], "sense": r.choice(["le", "ge"]), "rhs": Fraction(r.choice([-1, 0, 1]))})
     prods = []
     if n >= 3 and r.random() < 0.5:
         used = set()
@@ -108,7 +112,8 @@ def build_real(shape):
         m.addConstr(expr + e <= float(row["target"]), name=f"CROW_{i}")
         m.addConstr(expr + e >= float(row["target"]), name=f"CROW_{i}")
     for c in shape["cons"]:
-        expr = m.quicksum(k * V[v] for k, v in c["terms"])
+        # (an empty selection is summed with Python's sum, as aldy's callers do: the comparison is then a plain bool)
+        expr = m.quicksum(k * V[v] for k, v in c["terms"]) if c["terms"] else sum(k * V[v] for k, v in c["terms"])
         if c["sense"] == "le":
             m.addConstr(expr <= float(c["rhs"]), name="CSIDE")
         else:
@@ -360,7 +365,10 @@ def tie(ctx):
         o_ilp, o_run, o_esc = outs[3 * i], outs[3 * i + 1], outs[3 * i + 2]
         cj = case_json(sh)
         fam["shape_structure"]["cases"] += 1
-        diffs = lp.compare(real["snap"], lp.from_lean(o_ilp))
+        # rows over no variable: OR-Tools stores a constant comparison as an empty row with bounds [0,0] (true) or [1,1] (false);
+        # their meaning is judged by the trace (a constant-false row makes the model infeasible), not by the row's spelling
+        drop_empty = lambda sn: dict(sn, cons=[c_ for c_ in sn["cons"] if c_[0]])
+        diffs = lp.compare(drop_empty(real["snap"]), drop_empty(lp.from_lean(o_ilp)))
         if diffs:
             fam["shape_structure"]["disagreements"].append({"why": "model built by the CBC wrapper differs from Shape.toIlp: " + diffs[0], "input": {"shape": cj}, "diffs": diffs[:10]})
         fam["valid_run"]["cases"] += 1
